@@ -380,7 +380,7 @@ def run(tier, seed, replay=None):
     phases["behaviour_generation"] = round(time.time() - t0, 1)
     t0 = time.time()
     keys = sorted(progs)
-    cap = 400 if tier == "quick" else 2500
+    cap = 400 if tier == "quick" else 2000
     chosen = keys if len(keys) <= cap else rng.sample(keys, cap)
     chk.exhaustive = len(chosen) == len(keys)
     matched = unmatched_hist = 0
@@ -419,7 +419,7 @@ def run(tier, seed, replay=None):
     phases["replay_on_code"] = round(time.time() - t0, 1)
     t0 = time.time()
     # ---- code -> spec ---------------------------------------------------------
-    n_rand = 400 if tier == "quick" else 6000
+    n_rand = 400 if tier == "quick" else 4500
     for k in range(n_rand):
         indep = k % 8 == 7
         p = random_prog(rng, k, independent=indep)
